@@ -134,6 +134,9 @@ struct Rt {
 extern Rt g;
 
 inline int ExcCode(const std::exception_ptr& e) {
+  if (!e) {
+    return -998;  // moved-from / empty exception_ptr
+  }
   try {
     std::rethrow_exception(e);
   } catch (const MyException& x) {
@@ -327,6 +330,23 @@ inline yaclib::SharedFuture<Tracked, MyError> ReadyST(int state, int code) {
   return std::move(f);
 }
 
+// SharedFutures that several steps of one program may return and that are looked at again when the program is done
+struct SharedSlots {
+  yaclib::SharedFuture<Tracked, MyError> sf[2];
+  int made[2] = {0, 0};
+  int state[2], code[2];
+};
+extern SharedSlots gs;
+inline yaclib::SharedFuture<Tracked, MyError> SharedSlot(int i, int pending, int state, int code) {
+  if (gs.made[i] == 0) {
+    gs.made[i] = 1;
+    gs.state[i] = state;
+    gs.code[i] = code;
+    gs.sf[i] = pending != 0 ? PendingST(state, code) : ReadyST(state, code);
+  }
+  return gs.sf[i];
+}
+
 inline bool FulfilOne() {
   if (gp.done >= gp.n) {
     return false;
@@ -401,6 +421,7 @@ struct Out {
   int ready = 0;     // final future Ready at quiescence
   int finished = 0;  // Finish() reached
   long allocs = 0;   // operator new calls between Begin() and Finish()
+  int shared_bad = 0;  // shared slots whose value is no longer the one that was set (moved-from, torn, wrong)
 };
 extern Out gout;
 extern long alloc_mark;
@@ -409,10 +430,29 @@ inline void Begin() {
   alloc_mark = gc.news;
 }
 
+// after quiescence every shared slot must still hold exactly what was set, however often it was flattened
+inline void CheckSharedSlots() {
+  for (int i = 0; i < 2; ++i) {
+    if (gs.made[i] != 0) {
+      if (!gs.sf[i].Valid() || !gs.sf[i].Ready()) {
+        gout.shared_bad++;
+      } else {
+        Dig d = D(std::as_const(gs.sf[i]).Touch());
+        if (d.state != gs.state[i] || d.code != gs.code[i]) {
+          gout.shared_bad++;
+        }
+      }
+      gs.sf[i] = {};
+      gs.made[i] = 0;
+    }
+  }
+}
+
 template <typename F>
 void FinishFuture(F&& f) {
   Quiesce();
   gout.allocs = gc.news - alloc_mark;
+  CheckSharedSlots();
   gout.ready = f.Valid() && f.Ready() ? 1 : 0;
   if (gout.ready != 0) {
     auto r = std::move(f).Get();
@@ -426,6 +466,7 @@ void FinishFuture(F&& f) {
 inline void FinishDetached() {
   Quiesce();
   gout.allocs = gc.news - alloc_mark;
+  CheckSharedSlots();
   gout.ready = 1;
   gout.final_state = -5;
   gout.finished = 1;
